@@ -15,7 +15,7 @@ theorem entryFields_trackOff_of_neg (e0 : Bytes)
             + (delim.length : Int)) < 0) :
     (entryFields e0).trackOff = ((stripDelims e0.length e0).length : Int) := by
   simp only [entryFields]
-  rw [if_pos h]
+  rw [if_pos (Or.inr (Or.inr (Or.inr h)))]
 
 theorem assembleAt_end (kOf : Nat → Nat) (hashLen mbs : Nat) (content stream : Bytes)
     (endpos fuel curpos : Nat) :
